@@ -1,10 +1,57 @@
-(* C07 -- witnesses: behaviour of the faithful model that does NOT meet the full statement (known findings). *)
+(* C07 -- witnesses: behaviour of the faithful model that does NOT meet the full statement (known findings);
+   each shows that a guard of a Properties/C07.v theorem is necessary. *)
 Require Import SF.Prelude SF.PySlice SF.Dtype SF.PyDyn Gen.Gen_util SF.Coerce.
 Local Open Scope string_scope.
 Local Open Scope Z_scope.
 
-(* D7: int64 meets float64 -> float64, which does not hold 2**60+1 (the guard lossy_pair is necessary) *)
+(* C07-int64-float (D7): int64 meets float64 -> float64, which does not hold 2**60+1 *)
 Theorem C07_int64_float64_refuted : exists d1 d2 v r,
   resolve_dtype (PDtype d1) (PDtype d2) = PDtype r /\ holds d1 v = true /\ holds r v = false.
 Proof. exists (DInt true 8), (DFlt 8), (XInt (2 ^ 60 + 1)), (DFlt 8). vm_compute. auto. Qed.
 Print Assumptions C07_int64_float64_refuted.
+
+(* C07-int64-float: uint64 meets int8 -> float64 *)
+Theorem C07_uint64_int_refuted : exists d1 d2 v r,
+  resolve_dtype (PDtype d1) (PDtype d2) = PDtype r /\ holds d1 v = true /\ holds r v = false.
+Proof. exists (DInt false 8), (DInt true 1), (XInt (2 ^ 64 - 1)), (DFlt 8). vm_compute. auto. Qed.
+Print Assumptions C07_uint64_int_refuted.
+
+(* C07-datetime-week: datetime64[M] meets datetime64[W] -> [W]; 2020-03 (month 602) is not a week boundary *)
+Theorem C07_datetime_week_refuted : exists d1 d2 v r,
+  resolve_dtype (PDtype d1) (PDtype d2) = PDtype r /\ holds d1 v = true /\ holds r v = false.
+Proof. exists (DDt UM), (DDt UW), (XDt UM 602), (DDt UW). vm_compute. auto. Qed.
+Print Assumptions C07_datetime_week_refuted.
+
+(* C07-time-to-object: a datetime64 column meets a str: object, and NaT / a [ns] cell does not survive astype(object) *)
+Theorem C07_time_to_object_refuted : exists d e v1 v2,
+  holds d v1 = true /\ holds d v2 = true /\
+  survives (resolve d (elem_dtype e)) (FromArr d v1) = false /\ survives (resolve d (elem_dtype e)) (FromArr d v2) = false.
+Proof. exists (DDt Uns), (EPy (XStr "a")), (XNaT false), (XDt Uns 1). vm_compute. auto. Qed.
+Print Assumptions C07_time_to_object_refuted.
+
+(* C07-iter-bool / -bytes / -bigint: the flag loop does not choose object and NumPy's discovery casts *)
+Theorem C07_iter_refuted : exists es1 es2 es3 d1 d2 d3 e1 e2 e3,
+  iter_object_spec es1 = false /\ plan_dtype (PIter es1) = Ok d1 /\ In e1 es1 /\ survives d1 (FromElem e1) = false /\
+  iter_object_spec es2 = false /\ plan_dtype (PIter es2) = Ok d2 /\ In e2 es2 /\ survives d2 (FromElem e2) = false /\
+  iter_object_spec es3 = false /\ plan_dtype (PIter es3) = Ok d3 /\ In e3 es3 /\ survives d3 (FromElem e3) = false.
+Proof.
+  exists [EPy (XBool true); EPy (XInt 2)], [EPy (XBytes "a"); EPy (XInt 1)], [EPy (XInt (2 ^ 53 + 1)); ENp (DFlt 8) (XFlt (FFin 3 (-1)))],
+         (DInt true 8), (DBytes 21), (DFlt 8), (EPy (XBool true)), (EPy (XInt 1)), (EPy (XInt (2 ^ 53 + 1))).
+  vm_compute. intuition.
+Qed.
+Print Assumptions C07_iter_refuted.
+
+(* C07-block-retype: one 2-column int64 block, only the first column targeted, a str value: the second column
+   becomes object although no cell of it is addressed (the guard bloc_uniform is necessary) *)
+Theorem C07_bloc_retype_refuted : exists blocks hits vd,
+  length hits = total_width blocks /\ M_bloc blocks hits vd <> S_bloc (expand_blocks blocks) hits vd.
+Proof. exists [(DInt true 8, 2%nat)], [true; false], (DStr 1). split; [reflexivity|]. vm_compute. discriminate. Qed.
+Print Assumptions C07_bloc_retype_refuted.
+
+(* C07-overlay-timedelta: util.dtype_kind_to_na (regenerated) answers the DATETIME NaT for kind 'm'; a timedelta64
+   column reindexed with it resolves to object *)
+Require Import SF.CoerceDyn.
+Theorem C07_kind_to_na_timedelta_refuted : exists u e,
+  decode_elem (dtype_kind_to_na (PStr "m")) = Some e /\ resolve (DTd u) (elem_dtype e) = DObj.
+Proof. exists Uns, (ENp (DDt UGen) (XNaT false)). vm_compute. auto. Qed.
+Print Assumptions C07_kind_to_na_timedelta_refuted.
